@@ -9,7 +9,7 @@
      ===S        arb_spec     case-insensitive equality with str(candidate)                                            *)
 From Coq Require Import List Arith NArith Bool Lia.
 Import ListNotations.
-Require Import S1 VParse VComplete VTop VTop2 VDec Py VMeaning VCmp SpecModel SpecOps SpecOps2 Prefix Prefix4 Compat SpecParse SpecSound SpecContains SpecSem SpecMain SpecLink SpecGate SpecArb SpecAdmit SpecStruct VAscii.
+Require Import S1 VParse VComplete VTop VTop2 VDec Py VMeaning VCmp SpecModel SpecOps SpecOps2 Prefix Prefix4 Compat SpecParse SpecSound SpecContains SpecSem SpecMain SpecLink SpecGate SpecArb SpecAdmit SpecStruct SpecSpell VAscii.
 Open Scope N_scope.
 
 (* 1. every specifier the constructor accepts denotes a version form its operator admits (so the semantics below is defined) *)
@@ -101,6 +101,22 @@ Theorem C03_every_admitted_wildcard_is_accepted o t V : (o = OEq \/ o = ONe) -> 
   (forall u c, t = u ++ [c] -> is_ws c = false) -> exists sp, Specifier (op_txt o ++ t ++ [46; 42]) = Some sp /\ sp_op sp = o.
 Proof. exact (form_table_complete_wild o t V). Qed.
 Print Assumptions C03_every_admitted_wildcard_is_accepted.
+
+(* ... with its denotation: in ANY spelling t of a version V the operator admits, Specifier(op + t) is that operator applied to exactly V
+      (resp. to V.* for a plain V followed by ".*"), and contains(item, prereleases=True) is [sem op V] *)
+Theorem C03_specifier_of_version o t V : Version t = Some V -> admits o V -> o <> OArb ->
+  exists sp, Specifier (op_txt o ++ t) = Some sp /\ sp_op sp = o /\ interp sp = Some (FVer V) /\ form_ok o (FVer V).
+Proof. exact (Specifier_of_version o t V). Qed.
+Print Assumptions C03_specifier_of_version.
+Theorem C03_specifier_of_wildcard o t V : (o = OEq \/ o = ONe) -> Version t = Some V -> plain V ->
+  (forall u c, t = u ++ [c] -> is_ws c = false) ->
+  exists sp, Specifier (op_txt o ++ t ++ [46; 42]) = Some sp /\ sp_op sp = o /\ interp sp = Some (FWild V) /\ form_ok o (FWild V).
+Proof. exact (Specifier_of_wildcard o t V). Qed.
+Print Assumptions C03_specifier_of_wildcard.
+Theorem C03_every_spelling_every_admitted_version o t V item c : Version t = Some V -> admits o V -> o <> OArb -> Version item = Some c ->
+  exists sp b, Specifier (op_txt o ++ t) = Some sp /\ sem o (FVer V) c = Some b /\ contains sp None (Some true) item = Ans b.
+Proof. exact (contains_of_version o t V item c). Qed.
+Print Assumptions C03_every_spelling_every_admitted_version.
 
 (* 7. the worked examples of PEP 440 "Version specifiers" (94 rows: ~=2.2.post3, ==1.1.* vs 1.1a1, >1.7 vs 1.7.0.post1, >1.7.post2 vs 1.7.0.post3,
       <1.7 vs 1.7a1, local labels, zero padding, epochs, ===), evaluated with the declarative semantics: [sem] says what the PEP says *)
